@@ -47,6 +47,7 @@ type c14Env struct {
 	present *pb.Digest
 	data    []byte
 	cells   int
+	baseRes int64 // reserved bytes already reported as leaked
 }
 
 // handlerGoroutines counts goroutines that are inside repository request code.
@@ -657,6 +658,11 @@ func TestC14(t *testing.T) {
 		c14Aborts(rep, mode)
 		return
 	}
+	if part == "backend-aborts" {
+		f.close()
+		c14BackendAborts(rep, mode)
+		return
+	}
 	if part == "origin" {
 		c14Origin(rep, f, mode)
 		return
@@ -908,13 +914,14 @@ func (e *c14Env) leakCheckNoGC(cls, id string) {
 	ok := waitFor(func() bool {
 		g, _ := handlerGoroutines()
 		_, reserved, _, _ := e.f.cache.Stats()
-		return g <= e.baseG && reserved == 0 && e.f.active.Load() == 0
+		return g <= e.baseG && reserved <= e.baseRes && e.f.active.Load() == 0
 	})
 	if !ok {
 		g, stack := handlerGoroutines()
 		_, reserved, _, _ := e.f.cache.Stats()
-		e.rep.Violate("C14 "+cls+" request left a goroutine or a reservation behind", fmt.Sprintf("after %s: %d goroutines still inside repository request code (baseline %d), reserved=%d; one of them:\n%s", id, g, e.baseG, reserved, stack), nil)
+		e.rep.Violate("C14 "+cls+" request left a goroutine or a reservation behind", fmt.Sprintf("after %s: %d goroutines still inside repository request code (baseline %d), reserved=%d (before: %d); one of them:\n%s", id, g, e.baseG, reserved, e.baseRes, stack), nil)
 		e.baseG = g
+		e.baseRes = reserved // what has leaked stays leaked: later cells are judged against it
 	}
 }
 
@@ -1078,4 +1085,87 @@ func c14Files(rep *vlib.Report, mode string) {
 		})
 	}
 	e.leakCheck("files", "the last ill-formed file")
+}
+
+// c14BackendAborts: requests that need a SLOW backend and that the client
+// gives up on: multi-digest reads of blobs the cache does not hold (known
+// sizes: each lookup reserves its space before the backend is asked), a
+// ByteStream.Read, a dependency-checked GetActionResult, FindMissingBlobs.
+// The client's deadline expires while the first backend call is in progress,
+// so the remaining lookups run with a context that is already done. After the
+// handler has ended nothing may stay reserved and no goroutine may be left
+// (oracle by state, 20 s cap; the timing only decides how many lookups see a
+// dead context, never the verdict).
+func c14BackendAborts(rep *vlib.Report, mode string) {
+	px := vlib.NewFakeProxy()
+	px.StepFn = func(op, detail string) { time.Sleep(60 * time.Millisecond) }
+	f := newFx(fxOpts{mode: mode, validateAC: true, proxy: px, maxSize: 4 << 20})
+	defer f.close()
+	e := &c14Env{rep: rep, f: f, mode: mode}
+	f.settle()
+	time.Sleep(30 * time.Millisecond)
+	e.baseG, _ = handlerGoroutines()
+	ctr := 0
+	digests := func(k, n int, inBackend bool) []*pb.Digest {
+		var ds []*pb.Digest
+		for i := 0; i < k; i++ {
+			ctr++
+			d := vlib.Bytes(fmt.Sprintf("c14/backend-aborts/%s/%d", mode, ctr), n, false)
+			h := vlib.Sha(d)
+			if inBackend {
+				st := d
+				if mode == "zstd" {
+					st = vlib.EncodeCasBlob(d, 1<<20, true)
+				}
+				px.Set(cache.CAS, h, st, int64(n))
+			}
+			ds = append(ds, &pb.Digest{Hash: h, SizeBytes: int64(n)})
+		}
+		return ds
+	}
+	for _, inBackend := range []bool{false, true} {
+		for _, n := range []int{1000, 300 << 10} {
+			for _, patience := range []time.Duration{30 * time.Millisecond, 90 * time.Millisecond, 200 * time.Millisecond} {
+				for _, op := range []string{"BatchReadBlobs", "ByteStream.Read", "GetActionResult", "FindMissingBlobs", "GetTree"} {
+					id := fmt.Sprintf("mode=%s %s of 4 blobs of %d bytes (held by the slow backend: %v), client gives up after %v", mode, op, n, inBackend, patience)
+					ds := digests(4, n, inBackend)
+					e.run("backend-aborts", id, false, func(ctx context.Context) (bool, string) {
+						cctx, cancel := context.WithTimeout(ctx, patience)
+						defer cancel()
+						var err error
+						switch op {
+						case "BatchReadBlobs":
+							_, err = f.cas.BatchReadBlobs(cctx, &pb.BatchReadBlobsRequest{Digests: ds})
+						case "ByteStream.Read":
+							st, e1 := f.bs.Read(cctx, &bytestream.ReadRequest{ResourceName: fmt.Sprintf("blobs/%s/%d", ds[0].Hash, ds[0].SizeBytes)})
+							err = e1
+							if err == nil {
+								_, err = st.Recv()
+							}
+						case "FindMissingBlobs":
+							_, err = f.cas.FindMissingBlobs(cctx, &pb.FindMissingBlobsRequest{BlobDigests: ds})
+						case "GetTree":
+							st, e1 := f.cas.GetTree(cctx, &pb.GetTreeRequest{RootDigest: ds[0]})
+							err = e1
+							if err == nil {
+								_, err = st.Recv()
+							}
+						case "GetActionResult":
+							ar := &pb.ActionResult{StdoutDigest: ds[0], StderrDigest: ds[1], OutputFiles: []*pb.OutputFile{{Path: "a", Digest: ds[2]}, {Path: "b", Digest: ds[3]}}}
+							data, _ := proto.Marshal(ar)
+							key := vlib.Sha([]byte("c14 backend-aborts ac " + ds[0].Hash))
+							_ = f.cache.Put(context.Background(), cache.AC, key, int64(len(data)), bytes.NewReader(data))
+							_, err = f.ac.GetActionResult(cctx, &pb.GetActionResultRequest{ActionDigest: &pb.Digest{Hash: key, SizeBytes: 1}, InlineStdout: true})
+						}
+						return err == nil, grpcStatus(err)
+					})
+					e.leakCheckNoGC("backend-aborts", id)
+				}
+			}
+		}
+	}
+	f.settle()
+	for _, p := range f.invariants() {
+		rep.Violate("C14 backend-aborts cache inconsistent "+genericKey(p), p, nil)
+	}
 }
